@@ -3,7 +3,7 @@ from props._preobs import FN_PRE, PRE_ASSUME
 from vf.ch import Ob
 
 ASSUMPTIONS = PRE_ASSUME
-OUTSIDE = ["file-system side effects (parsetab.py rewriting, dump files) and cross-process behaviour other than table generation: not expressible as a solver query over the code"]
+OUTSIDE = ["rewriting of parsetab.py inside the installed package (C20) and cross-process behaviour other than table generation", "file-system effects are decided on one catalogued table per case (native execution; the solver chooses mode / flags / entry point), not for arbitrary DDL"]
 KINDS = ["line_dash", "line_hash", "line_block", "trail_dash", "trail_block", "multi_block", "multi_block_banner", "trail_dash_glued", "line_block_trailing_blank"]
 
 
@@ -14,6 +14,12 @@ def obligations(tier):
                 "replay runs the public API under hash seeds 0..3"),
              Ob("C14.fresh/accumulators", "c06", "c_fresh", {}, t, ["simple_ddl_parser/dialects/sql.py:p_t_name, p_domain_name/p_expression_domain_as, p_type_name/p_type_definition, p_seq_name"],
                 "two calls of each skeleton-building action return dicts that share no mutable sub-object (lists / dicts)")]
+    FS = ["simple_ddl_parser/cli.py:main, run_for_file", "simple_ddl_parser/ddl_parser.py:parse_from_file", "simple_ddl_parser/parser.py:Parser.run", "simple_ddl_parser/output/core.py:dump_data_to_file",
+          "the whole pipeline on one catalogued table (native execution on a fresh temporary tree)"]
+    extra += [Ob("C14.nofiles/api", "misc", "c_nofiles", {}, t, FS, "run() / parse_from_file() without dump: 15 modes x group_by_type x json_dump x entry point (all symbolic): no file or directory "
+                 "appears in the working directory, next to the input or under ./schemas; argument dicts unchanged"),
+              Ob("C14.nofiles/cli-file", "misc", "c_cli_fs", {"VF_CLI_DIR": 0, "VF_CLI_NODUMP": 1}, t, FS, "sdp <file> --no-dump (name, -o, second invocation, -t given / defaulted: symbolic): nothing created"),
+              Ob("C14.nofiles/cli-dir", "misc", "c_cli_fs", {"VF_CLI_DIR": 1, "VF_CLI_NODUMP": 1}, t, FS, "sdp <directory> --no-dump (as above): nothing created, the target directory included")]
     return extra + [Ob(f"C14.rerun/{k}", "pre", "c_rerun", {"VF_KIND": i, "VF_NCT": 4 if tier == "quick" else 12}, t, FN_PRE,
                "script with one comment (kind fixed, position and text symbolic) and a last line of 5 kinds (symbolic): parse_data() twice on the "
                "same object - second result equals the first, first result object unchanged")
